@@ -7,6 +7,9 @@
    h2err   <dial-failed|dial-timeout|tls-failed|eof|bad-preface>      →  o|c|x
    errresp name=… minor=… close=… connect=… rules=… status=… msg=… err=… closing=…
                                           →  <status> <minor> <keepAlive> <declared|none> <bodyLen> <fieldmap>
+   relayresp minor=… close=… rules=… status=… hdr=<name,v,…;name,v,…> body=… closing=…
+                                          →  same shape: the relayed transport-level CONNECT rejection
+                                             (hdr = the upstream proxy's header map, canonical keys)
 
    kinds:   op:<dial|read|write|remote|local>:<0|1>  dns:<0|1>  refused  reset  eof  tls-record:<0|1>
             tls-cert  tls-ech  tls-alert  tls-alert-remote  tls-alert-local  tls-generic  tls-hs-timeout
@@ -133,6 +136,17 @@ def decodeObs (toks : List String) : Option ClientObs :=
   | ["close"] => some .cleanClose
   | _ => none
 
+/-- a Go header map: `name,v1,v2;name,v` (all atoms hex) -/
+def decodeHMap (s : String) : Option C16.HMap :=
+  (splitList2 s).mapM fun e =>
+    match splitList e with
+    | n :: vs => do some ((← bytesOfHex n), (← vs.mapM bytesOfHex))
+    | [] => none
+
+def encodeWire (w : WireResp) : String :=
+  let d := match w.declaredLength with | some n => toString n | none => "none"
+  s!"{w.status} {w.minor} {ofBool w.keepAlive} {d} {w.body.length} {Req.encodeFieldMap (Req.mergeFields w.fields)}"
+
 def decodeResults (s : String) : Option (List HandleResult) :=
   (splitList s).mapM fun a =>
     match a with
@@ -197,9 +211,21 @@ def handle : List String → String
       some (writtenError closing { name := name, minor := minor, close := cl, isConnect := isC, rules := rules } st msg err)
     match r? with
     | none => "bad-op"
-    | some w =>
-      let d := match w.declaredLength with | some n => toString n | none => "none"
-      s!"{w.status} {w.minor} {ofBool w.keepAlive} {d} {w.body.length} {Req.encodeFieldMap (Req.mergeFields w.fields)}"
+    | some w => encodeWire w
+  | "relayresp" :: toks =>
+    let r? : Option (WireResp) := do
+      let minor ← natOf (kvD toks "minor" "1")
+      let cl ← boolOf (kvD toks "close" "0")
+      let rulesRaw ← bytesList (kvD toks "rules" "~")
+      let rules ← rulesRaw.mapM C16.parseRule
+      let st ← natOf (kvD toks "status" "403")
+      let up ← decodeHMap (kvD toks "hdr" "~")
+      let body ← bytesOfHex (kvD toks "body" "_")
+      let closing ← boolOf (kvD toks "closing" "0")
+      some (writtenRelay closing { name := [], minor := minor, close := cl, isConnect := false, rules := rules } st up body)
+    match r? with
+    | none => "bad-op"
+    | some w => encodeWire w
   | _ => "bad-op"
 
 end C12
